@@ -19,14 +19,14 @@ P = dict(
                 "ranges, move_insert, erase x2, free erase/erase_if, resize x2, assign x2, clear, member/free/self swap, copy/move construction and assignment "
                 "with independence and reuse-of-source probes, constructors, six relational operators, try_/unchecked_ push/emplace of inplace_vector incl. the "
                 "full-must-return-null case, stack push/emplace/pop/top/swap/compare) is applied with every argument tuple (odometer enumeration); plus seeded "
-                "random 40-step histories at capacities 16, 254, 255, 256 (size-type boundary) hovering at empty/full. After every step size, empty/full, "
+                "random 40-step (one in eight: 320-step) histories at capacities 16, 254, 255, 256 (size-type boundary) hovering at empty/full. After every step size, empty/full, "
                 "capacity, the element sequence, returned iterator offsets/references/counts are compared; trivial (int, pod) and non-trivial "
                 "(address-registered copy+move and move-only) element types select both storage implementations; all under ASan+UBSan."),
     level_note="trusts libstdc++ std::vector as oracle; iterator-range overloads are driven with pointers only (tetl static_asserts pointer iterators); bounded by the enumerated scope and the random sample",
     technique="runtime differential monitoring vs std::vector with a lifetime registry, under ASan+UBSan (exhaustive small scope + seeded random histories)",
     design_ref="DESIGN.md section 4 C01",
     rule=("enumerated: capacity in the unit's list (<=4) x every start sequence over {0,1,2} of length <= min(cap,3) x 7 families x every argument tuple; random: "
-          "40-step histories per capacity. One evaluation = one tetl call compared with the model. Distinct = hash of (element type, capacity, model contents "
+          "40- or 320-step histories per capacity (500 per capacity quick, 60000 thorough). One evaluation = one tetl call compared with the model. Distinct = hash of (element type, capacity, model contents "
           "before, overload, arguments); every counted case is an operation applied to a concrete state (non-trivial by construction)."),
     units=[
         u(0, "a", "0,1,2,3", nocc=True), u(0, "b", "16,254,255,256"), u(0, "c", "4", quick=False),
